@@ -313,8 +313,12 @@ func prop(c Case) error {
 	wantKind, wantPts := exact.SegSeg(P[0], P[1], P[2], P[3])
 	before := c.P
 	for vi, idx := range variants {
-		r := lineintersector.LineIntersectsLine(lineintersector.RobustLineIntersector{}, coi(c, idx[0]), coi(c, idx[1]), coi(c, idx[2]), coi(c, idx[3]))
+		in := [4]geom.Coord{coi(c, idx[0]), coi(c, idx[1]), coi(c, idx[2]), coi(c, idx[3])}
+		r := lineintersector.LineIntersectsLine(lineintersector.RobustLineIntersector{}, in[0], in[1], in[2], in[3])
 		what := fmt.Sprintf("robust, variant %d %v of %v", vi, idx, show(c))
+		// (the points reported may alias the coordinates handed in - a collinear overlap is
+		// reported as the endpoint slices themselves; no statement says otherwise, so the
+		// result is only read here, never written)
 		if int(r.Type()) != wantKind {
 			return fmt.Errorf("%s: type %v, exact %v", what, r.Type(), lineintersection.Type(wantKind))
 		}
